@@ -17,8 +17,12 @@ fn main() {
     std::panic::set_hook(Box::new(|_| {}));
     let args: Vec<String> = std::env::args().collect();
     let cmd = args.get(1).map(|s| s.as_str()).unwrap_or("");
-    let stdout = std::io::stdout();
-    let mut out = std::io::BufWriter::new(stdout.lock());
+    // Protocol lines go to the file named by L21H_OUT when set (the library under test may
+    // print to stdout itself), else to stdout.
+    let mut out: std::io::BufWriter<Box<dyn Write>> = match std::env::var("L21H_OUT") {
+        Ok(p) => std::io::BufWriter::new(Box::new(std::fs::File::create(p).expect("L21H_OUT"))),
+        Err(_) => std::io::BufWriter::new(Box::new(std::io::stdout())),
+    };
     match cmd {
         "gen" => {
             let prop = &args[2];
